@@ -156,6 +156,75 @@ def _chunk(args):
                 if r is not truth[name]:
                     out["viols"].append(("comparison_depends_on_units", label,
                                          f"({qa}) {name} ({qb}) is {r}; in kelvin {va} vs {vb}", rp))
+        elif kind == "tempsub":
+            # a - b and a + b with the RIGHT operand re-expressed on every scale: the right operand is
+            # converted into the left operand's unit, so the result (in a's unit) must not
+            # depend on how b was written
+            _, i, j, sa, pa = case
+            U = w.m.Unit._by_name
+            P = sp.prefixes
+            ua = (P[pa] * U[sa]) if pa else U[sa]
+            fa = (Decimal(P[pa].base) ** P[pa].exponent) if pa else Decimal(1)
+            va, vb = TEMPS[i], TEMPS[j]
+            ma = t_from_kelvin(sa, va) / fa
+            mb_in_a = t_from_kelvin(sa, vb) / fa
+            qa = float(ma) * ua
+            rp = {"case": list(case)}
+            for sb in TSCALES:
+                for pb in (None, "kilo", "milli"):
+                    ub = (P[pb] * U[sb]) if pb else U[sb]
+                    fb = (Decimal(P[pb].base) ** P[pb].exponent) if pb else Decimal(1)
+                    qb = float(t_from_kelvin(sb, vb) / fb) * ub
+                    label = f"temperature: {va} K as {pa or ''}{sa} (.) {vb} K as {pb or ''}{sb}"
+                    for name, fn, want in (("-", lambda: qa - qb, ma - mb_in_a), ("+", lambda: qa + qb, ma + mb_in_a)):
+                        out["n"] += 1
+                        try:
+                            r = fn()
+                        except Exception as e:  # noqa
+                            bump(f"temp {name}:raised {type(e).__name__}")
+                            continue
+                        bump(f"temp {name}:value")
+                        out["nt"].add(("tempsub", name, i, j, sa, pa, sb, pb))
+                        scale = max(abs(ma), abs(mb_in_a), Decimal(1), Decimal("273.15") / fa)
+                        if r.unit is not ua or abs(mag(r.magnitude) - want) > Decimal("1e-9") * scale:
+                            out["viols"].append(("difference_depends_on_units" if name == "-" else "sum_depends_on_units", label,
+                                                 f"({qa}) {name} ({qb}) = {r}; with the right operand written in the left one's unit it is {float(want)!r} {ua}", rp))
+        elif kind == "late":
+            # a unit that is compared BEFORE its equivalence is declared must afterwards compare
+            # and add like any other spelling of the same length
+            from measured import Length
+            from measured.si import Centi, Meter
+            from measured.us import Foot, Inch
+
+            U_ = Length.unit("verif cubit", "vcb")
+            rp = {"case": list(case)}
+            if case[1]:
+                try:
+                    (1 * U_) == (0.5 * Meter)
+                    (1 * U_) < (1 * Meter)
+                    (1 * U_).in_unit(Meter)
+                except Exception:  # noqa
+                    pass
+            U_.equals(0.5 * Meter)
+            for lab, q in (("0.5 m", 0.5 * Meter), ("50 cm", 50 * (Centi * Meter)), ("19.68503937007874 in", 19.68503937007874 * Inch),
+                           ("1.6404199475065617 ft", 1.6404199475065617 * Foot)):
+                out["n"] += 3
+                try:
+                    s_ = (3 * U_) + q
+                    d_ = (3 * U_) - q
+                    lt = (1 * U_) < (2 * q)
+                    gs, gd = si(sp, q) * 0 + mag(s_.magnitude) * Decimal("0.5"), mag(d_.magnitude) * Decimal("0.5")
+                    ok = abs(gs - Decimal(2)) < Decimal("1e-6") and abs(gd - Decimal(1)) < Decimal("1e-6") and lt is True
+                    eq = (1 * U_) == q
+                    if lab in ("0.5 m", "50 cm"):
+                        ok = ok and eq is True
+                    out["nt"].add(("late", case[1], lab))
+                    if not ok:
+                        out["viols"].append(("late_declaration_depends_on_units", f"late declared unit vs {lab}",
+                                             f"after {'a comparison and ' if case[1] else ''}declaring 1 cubit = 0.5 m: 3 cubit + {lab} = {s_}, - = {d_}, 1 cubit < 2*({lab}) is {lt}, == {eq}", rp))
+                except Exception as e:  # noqa
+                    out["viols"].append(("late_declaration_depends_on_units", f"late declared unit vs {lab}",
+                                         f"after {'a comparison and ' if case[1] else ''}declaring 1 cubit = 0.5 m, operating with {lab} raised {type(e).__name__}: {e}", rp))
         elif kind == "tie":
             _, n, p, q, k = case
             # k units of p*n against k*ratio units of q*n, ratio = value(p)/value(q) an exact integer
@@ -334,6 +403,13 @@ def case_list(sp, thorough):
                     for pa in (None, "kilo", "milli"):
                         for pb in (None, "kilo"):
                             cases.append(("temp", i, j, sa, sb, pa, pb))
+    for i in range(len(TEMPS)):
+        for j in range(len(TEMPS)):
+            for sa in TSCALES:
+                for pa in (None, "kilo"):
+                    cases.append(("tempsub", i, j, sa, pa))
+    cases.append(("late", 0))
+    cases.append(("late", 1))
     for k1, k2 in pairs:
         e1 = prod_expressions(sp, k1, 0, thorough)
         e2 = prod_expressions(sp, k2, 1, thorough)
